@@ -166,7 +166,8 @@ def run_cell(cell, seed):
     if not ok:
         return [res(VIOLATED, {'cell': cell}, 'M-JAC.native', 'forward raised %r' % (z,))]
     cot = make_cot(cell, z, seed)
-    ok, g = util.call_lib(torch.autograd.grad, [z], [x], [cot], allow_unused=True)
+    ok, g = util.call_lib(torch.autograd.grad, [z], [x], [cot], allow_unused=True, retain_graph=True)
+    g_second = util.call_lib(torch.autograd.grad, [z], [x], [1e-9 * torch.flip(cot, dims=[0])], allow_unused=True) if ok else None
     case = {'cell': cell, 'check': 'finite'}
     if not ok:
         return [res(VIOLATED, {'cell': cell, 'check': 'backward'}, 'M-JAC.native', 'backward raised %r' % (g,))]
@@ -202,6 +203,20 @@ def run_cell(cell, seed):
             okc, d, ratio = util.compare('x.grad vs native autograd', grad, util.np64(gn), tol)
             out.append(res(HELD, case, 'M-JAC.native', ratio=ratio) if okc else
                        res(VIOLATED, case, 'M-JAC.native', d, ratio=ratio))
+            # second cotangent (magnitude 1e-9) pulled back through the same recorded graph
+            case2 = {'cell': cell, 'check': 'second pull-back, tiny cotangent'}
+            if not g_second[0]:
+                out.append(res(VIOLATED, case2, 'M-JAC.native', 'second backward through the same graph raised %r' % (g_second[1],)))
+            elif g_second[1][0] is None:
+                out.append(res(VIOLATED, case2, 'M-JAC.native', 'no gradient delivered on the second backward'))
+            else:
+                xn2 = x0.clone().requires_grad_(True)
+                zn2 = native_forward(mod, xn2)
+                c2 = 1e-9 * torch.flip(cot, dims=[0])
+                gn2 = torch.autograd.grad([zn2], [xn2], [c2])[0]
+                okc, d, ratio = util.compare('x.grad vs native autograd (|g| ~ 1e-9)', g_second[1][0], util.np64(gn2), tol * 1e-9)
+                out.append(res(HELD, case2, 'M-JAC.native', ratio=ratio) if okc else
+                           res(VIOLATED, case2, 'M-JAC.native', d, ratio=ratio))
     # (ii) finite differences
     if cell['magbias'] >= 1e-2:
         case = {'cell': cell, 'check': 'fd'}
